@@ -317,7 +317,7 @@ def repCandidate : Expr → Bool
   | .un (.to t) (.var i) =>
     [(3, Tag.real 3 b2), (3, .rgb), (3, .proj4), (5, .real 3 b1), (7, .real 3 b2), (7, .real 2 b1),
      (16, .r2r 3 b2 b1), (16, .r2p b1), (16, .unit), (16, .real 3 b1), (21, .r2r 3 b1 b2)].contains (i, t)
-  | .un .field0 (.var i) => i == 3
+  | .un .field0 _ => false                                -- raw arrays are not operands of interest
   | .bin .pairOf (.var i) (.var j) => (i == 3 || i == 4) && j == 12   -- (v1, c1), (v2, c1)
   | _ => true
 
